@@ -67,7 +67,7 @@ def snap_prim(p):
     for sem, tupes in p.sources.items():
         for t in tupes:
             inputs.append([int(t[0]), t[1], t[2], None if t[3] is None else str(t[3]), getattr(t[4], 'id', None)])
-    inputs.sort(key=lambda t: (t[0], t[1], str(t[3]), t[2]))
+    inputs.sort(key=lambda t: (t[0], str(t[1]), str(t[3]), str(t[2])))
     out = dict(kind=kind, material=p.material, inputs=inputs, n=len(p))
     idx = p.index
     out['index'] = None if idx is None else numpy.asarray(idx).reshape(-1).tolist()
